@@ -22,22 +22,21 @@ type StylingRegion struct {
 func StyleRegions(s string, regions []StylingRegion) Text {
 	regions = fixRegions(regions)
 
-	var text Text
+	var tb TextBuilder
 	lastTo := 0
 	for _, r := range regions {
 		if r.From > lastTo {
 			// Add text between regions or before the first region.
-			text = append(text, &Segment{Text: s[lastTo:r.From]})
+			tb.WriteText(T(s[lastTo:r.From]))
 		}
-		text = append(text,
-			StyleSegment(&Segment{Text: s[r.From:r.To]}, r.Styling))
+		tb.WriteText(T(s[r.From:r.To], r.Styling))
 		lastTo = r.To
 	}
 	if len(s) > lastTo {
 		// Add text after the last region.
-		text = append(text, &Segment{Text: s[lastTo:]})
+		tb.WriteText(T(s[lastTo:]))
 	}
-	return text
+	return tb.Text()
 }
 
 func fixRegions(regions []StylingRegion) []StylingRegion {
